@@ -70,8 +70,11 @@ class Ext:
 
 
 class Func:
-    def __init__(self, module, node):
-        self.module, self.node = module, node
+    """Repo function.  ``raw``: call the body directly (decorators already applied / deliberately bypassed);
+    ``outer``: environment of the enclosing function for a nested definition (closure)."""
+
+    def __init__(self, module, node, raw=False, outer=None):
+        self.module, self.node, self.raw, self.outer = module, node, raw, outer
 
 
 class Builtin:
@@ -130,7 +133,27 @@ class Interp:
         self.top_env = {}
 
     # ------------------------------------------------------------------------------------------- functions
-    def call_function(self, module, fn, args=(), kwargs=None, depth=0):
+    TRANSPARENT_DECORATORS = {"functools.wraps", "functools.lru_cache", "functools.cache", "staticmethod", "classmethod",
+                              "abc.abstractmethod"}
+
+    def decorated(self, module, fn, outer=None):
+        """The callable a ``def`` statement binds: the function with its decorators applied (bottom-up).  Repo-local
+        decorators are interpreted; an external decorator without a transfer function is UNDECIDED."""
+        cur = Func(module, fn, raw=True, outer=outer)
+        frame = {"module": module, "env": {}, "depth": 0, "fn": None, "outer": outer}
+        for d in reversed(fn.decorator_list):
+            dv = self.ev(d, frame)
+            if isinstance(dv, Builtin) and dv.name in ("staticmethod", "classmethod", "property"):
+                continue
+            cur = self.call(dv, [cur], {}, d, frame)
+        return cur
+
+    def call_entry(self, module, fn, args=(), kwargs=None):
+        """Call a module-level function the way a client does: through its decorators."""
+        f = self.decorated(module, fn) if fn.decorator_list else Func(module, fn, raw=True)
+        return self.call(f, list(args), dict(kwargs or {}), fn, {"module": module, "env": {}, "depth": 0, "fn": None})
+
+    def call_function(self, module, fn, args=(), kwargs=None, depth=0, outer=None):
         if depth > MAX_DEPTH:
             raise Undecided("call depth exceeded in %s" % fn.name)
         kwargs = dict(kwargs or {})
@@ -153,7 +176,7 @@ class Interp:
             if a.kwarg is None:
                 raise PyRaise(ExcInstance("TypeError", ["%s() got an unexpected keyword argument %r" % (fn.name, sorted(kwargs)[0])], ("Exception",)))
             env[a.kwarg.arg] = kwargs
-        frame = {"module": module, "env": env, "depth": depth, "fn": fn}
+        frame = {"module": module, "env": env, "depth": depth, "fn": fn, "outer": outer}
         if depth == 0:
             self.top_env = env
         pos = a.posonlyargs + a.args
@@ -332,7 +355,9 @@ class Interp:
         return False
 
     def st_FunctionDef(self, st, frame):
-        raise Undecided("nested function definition %s" % st.name)
+        """Nested definition: a closure over the enclosing frame (free names are looked up there at call time)."""
+        frame["env"][st.name] = self.decorated(frame["module"], st, outer=frame) if st.decorator_list \
+            else Func(frame["module"], st, raw=True, outer=frame)
 
     def st_Delete(self, st, frame):
         raise Undecided("del statement")
@@ -391,10 +416,19 @@ class Interp:
         if fn is not None and _is_local(fn, e.id):
             raise PyRaise(ExcInstance("UnboundLocalError", ["local variable %r referenced before assignment" % e.id],
                                       BUILTIN_EXC["UnboundLocalError"]), e)
-        return self.global_name(frame["module"], e.id)
+        outer = frame.get("outer")
+        while outer is not None:
+            if e.id in outer["env"]:
+                return outer["env"][e.id]
+            outer = outer.get("outer")
+        return self.global_name(frame["module"], e.id, previous=frame.get("rebinding") == e.id)
 
-    def global_name(self, module, name):
-        sym = self.repo.resolve_name(module, name) if module is not None else None
+    def global_name(self, module, name, previous=False):
+        """``previous``: the binding the name had *before* a module-level ``name = wrapper(name)`` (i.e. the import)."""
+        if previous and module is not None and name in module.imports:
+            sym = self.repo._resolve_abs(module.imports[name])
+        else:
+            sym = self.repo.resolve_name(module, name) if module is not None else None
         if sym is not None:
             if sym.kind == "func":
                 return Func(sym.module, sym.target)
@@ -407,7 +441,7 @@ class Interp:
                     return ExcClass(k.name, tuple(bases) + ("Exception",))
                 return Ext(sym.dotted)
             if sym.kind == "const":
-                return self.ev(sym.target, {"module": sym.module, "env": {}, "depth": 0, "fn": None})
+                return self.ev(sym.target, {"module": sym.module, "env": {}, "depth": 0, "fn": None, "rebinding": name})
             if sym.kind in ("ext", "module"):
                 return Ext(sym.dotted)
         if name in BUILTIN_EXC:
@@ -477,7 +511,9 @@ class Interp:
     def call(self, f, args, kwargs, node, frame):
         self.tick()
         if isinstance(f, Func):
-            return self.call_function(f.module, f.node, args, kwargs, frame.get("depth", 0) + 1)
+            if not f.raw and f.node.decorator_list:
+                return self.call(self.decorated(f.module, f.node), args, kwargs, node, frame)
+            return self.call_function(f.module, f.node, args, kwargs, frame.get("depth", 0) + 1, outer=f.outer)
         if isinstance(f, Builtin):
             wants = getattr(f.fn, "_wants_interp", False)
             container = f.name.split(".")[0] in ("list", "dict", "set")
